@@ -39,6 +39,13 @@ def oracle(toks, line):
         img[off:off + by] = (v % (1 << (8 * by))).to_bytes(by, "little")
         wlo, whi = max(0, off - 8), min(BLK, off + 16)
         return m.group(1) == bytes(img[wlo:whi]).hex()
+    if toks[0] == "pstoreb":
+        # pointer cell / whole pointer array on the ABI with application-width guest pointers: the image holds the
+        # sandbox ENCODING (offset), never the application's bytes
+        pos, tgt = toks[1], toks[2]
+        r = 0 if tgt == "null" else int(tgt)
+        back = "null" if r == 0 else f"inB:{r}"
+        return line == (f"ok rep={r} back={back}" if pos == "cell" else f"ok rep={r},0 back={back},null")
     if toks[0] == "starr":
         shape, off = toks[2], int(toks[3])
         elt, n = {"int2x3": ("int", 6), "long2x3": ("long", 6), "char3x5": ("char", 15), "long3": ("long", 3), "ushort4": ("ushort", 4)}[shape]
@@ -135,6 +142,8 @@ def run(chk):
                 ops.append(f"starr {rng.randrange(2)} {shape} {off} " + " ".join(str(rng.choice(vv)) for _ in range(n)))
     # regression corpus first
     ops = ["load cav 0 long 100", "load cavrange 0 long 100", "load cav 0 ulong 65532"] + list(dict.fromkeys(ops))
+    for o in ["null", "1", "8", "4660", "65528", "65535"] + [str(rng.randrange(1, BLK)) for _ in range(6)]:
+        ops += [f"pstoreb cell {o}", f"pstoreb arrwhole {o}"]
     res = core.differential(chk, ops, binp, oracle, signature=signature, label="typed stores and loads")
     kinds = {}
     for o in ops:
